@@ -55,7 +55,7 @@ class TLCResult:
         re_depth = re.compile(r"^The depth of the complete state graph search is (\d+)")
         re_inv = re.compile(r"^Error: Invariant (\S+) is violated")
         re_prop = re.compile(r"^Error: Action property (\S+) is violated")
-        re_cov = re.compile(r"^<(\w+) line \d+, col \d+ to line \d+, col \d+ of module (\w+)>: (\d+):(\d+)")
+        re_cov = re.compile(r"^<(\w+) line \d+, col \d+ to line \d+, col \d+ of module (\w+)(?: \([\d ]+\))?>: (\d+):(\d+)")
         with open(self.out_path, errors="replace") as f:
             for line in f:
                 if line.startswith('"'):
